@@ -322,7 +322,8 @@ fn analyze_fn<'tcx>(tcx: TyCtxt<'tcx>, ldid: LocalDefId, hints: &BTreeMap<String
     for combo in combos.iter() {
         let mut it = Interp::new(tcx);
         it.home = home.clone();
-        it.opaque_depth0 = trait_name.is_some();
+        // a Debug impl is read structurally (its calls are the facts); every other body is interpreted
+        it.opaque_depth0 = trait_name.as_deref().map(|t| t.ends_with("fmt::Debug")).unwrap_or(false);
         let mut st = State {
             frames: Vec::new(),
             cells: Vec::new(),
@@ -335,6 +336,7 @@ fn analyze_fn<'tcx>(tcx: TyCtxt<'tcx>, ldid: LocalDefId, hints: &BTreeMap<String
             imprecise: false,
             ranges: Vec::new(),
             preds: Vec::new(),
+            eqpreds: Vec::new(),
         };
         let mut args: Vec<Val> = Vec::new();
         let mut part: Vec<(String, String)> = Vec::new();
@@ -515,6 +517,7 @@ fn const_facts<'tcx>(tcx: TyCtxt<'tcx>, ldid: LocalDefId) -> Option<String> {
         imprecise: false,
         ranges: Vec::new(),
         preds: Vec::new(),
+        eqpreds: Vec::new(),
     };
     let val = match tcx.const_eval_poly(did) {
         Ok(cv) => it.render(&st, &it.const_value_to_val(cv, ty), 0),
